@@ -79,6 +79,17 @@ static bool body_op(const Case &c, Ctx &ctx)
     if (op == INV || op == INV_PTR) {
         ref::E3 prod = ref::mul3(got, a);
         if (!ref::isone3(prod)) return ctx.fail(std::string(OPN[op]) + " a=" + s3(a) + " -> " + s3(got) + ": a*inv(a) = " + s3(prod));
+        // a second inversion straight afterwards of an element that differs from the first in exactly one coefficient
+        ref::E3 a2 = a; int k = (int)(c.v[1] / 5 % 3); a2[k] = b[k];
+        if (!ref::iszero3(a2) && a2 != a) {
+            ctx.cls("inv:second-call-one-coefficient-changed");
+            E3 A2, R2; wr(A2, a2); wr(R2, {7, 8, 9});
+            if (op == INV) Goldilocks3::inv(R2, A2); else Goldilocks3::inv(&R2, &A2);
+            ref::E3 p2 = ref::mul3(rd(R2), a2);
+            if (!ref::isone3(p2)) return ctx.fail(std::string(OPN[op]) + " a=" + s3(a2) + " called straight after the inversion of " + s3(a) + " -> " + s3(rd(R2)) + ": a*inv(a) = " + s3(p2));
+            E3 A3, R3; wr(A3, a); wr(R3, {7, 8, 9}); Goldilocks3::inv(R3, A3);
+            if (rd(R3) != got) return ctx.fail(std::string(OPN[op]) + " a=" + s3(a) + " differs when repeated after the inversion of " + s3(a2));
+        }
         return true;
     }
     if (got != want) return ctx.fail(std::string(OPN[op]) + " alias=" + std::to_string(alias) + " a=" + s3(a) + " b=" + s3(b) + ": got " + s3(got) + " want " + s3(want));
@@ -114,7 +125,7 @@ static std::string desc_ms(const Case &c) { return c.prop + " a=" + s3({c.v[2], 
 static bool body_batchinv(const Case &c, Ctx &ctx)
 {
     uint64_t n = c.v[0];
-    if (n == 1) ctx.nt("batchInverse:len=1"); else if (n <= 4) ctx.nt("batchInverse:len2..4"); else if (n <= 64) ctx.nt("batchInverse:len5..64"); else ctx.nt("batchInverse:len>64");
+    if (n == 1) ctx.nt("batchInverse:len=1"); else if (n <= 4) ctx.nt("batchInverse:len2..4"); else if (n <= 64) ctx.nt("batchInverse:len5..64"); else if (n <= 2000) ctx.nt("batchInverse:len>64"); else ctx.nt(n & 1 ? "batchInverse:len>4000-odd" : "batchInverse:len>4000-even");
     std::vector<ref::E3> src(n);
     for (uint64_t i = 0; i < n; i++) {
         for (int k = 0; k < 3; k++) src[i][k] = 2 + 3 * i + k < c.v.size() ? c.v[2 + 3 * i + k] : pbt::mix(c.v[1], 3 * i + k);
@@ -167,7 +178,7 @@ int main(int argc, char **argv)
 {
     std::vector<pbt::PropDef> props = {
         {"c09.op", [] { return rc::gen::apply([](int op, int al, std::vector<uint64_t> co) { std::vector<uint64_t> v{(uint64_t)op, (uint64_t)al}; v.insert(v.end(), co.begin(), co.end()); return v; },
-                                               g::irange(0, NOPS - 1), rc::gen::weightedElement<int>({{5, 0}, {2, 1}, {1, 2}, {1, 3}, {1, 4}}), gen_coeffs(6)); }, body_op, 8, false, desc_op, 100},
+                                               g::irange(0, NOPS - 1), rc::gen::apply([](int al, int k) { return al + 5 * k; }, rc::gen::weightedElement<int>({{5, 0}, {2, 1}, {1, 2}, {1, 3}, {1, 4}}), g::irange(0, 2)), gen_coeffs(6)); }, body_op, 8, false, desc_op, 100},
         {"c09.mulScalar", [] { return rc::gen::exec([] {
                                    std::vector<uint64_t> v{(uint64_t)*g::irange(0, 1), (uint64_t)*g::irange(0, 1)};
                                    auto co = *g::fe_vec(3); v.insert(v.end(), co.begin(), co.end());
@@ -175,7 +186,7 @@ int main(int argc, char **argv)
                                    for (int i = 0; i < nl; i++) v.push_back(*g::fe());
                                    return v; }); }, body_mulscalar, 1, false, desc_ms, 100},
         {"c09.batchInverse", [] { return rc::gen::exec([] {
-                                      uint64_t n = *rc::gen::weightedOneOf<uint64_t>({{3, g::range(1, 4)}, {4, g::range(1, 64)}, {1, g::range(65, 2000)}});
+                                      uint64_t n = *rc::gen::weightedOneOf<uint64_t>({{20, g::range(1, 4)}, {27, g::range(1, 64)}, {7, g::range(65, 2000)}, {1, g::elem({4095, 4097, 16383, 16384, 16385, 16387, 30001, 65536, 65537})}});
                                       std::vector<uint64_t> v{n, *g::uni64()};
                                       uint64_t ex = std::min<uint64_t>(n, 8);
                                       auto co = *gen_coeffs((int)(3 * ex)); v.insert(v.end(), co.begin(), co.end());
